@@ -84,11 +84,13 @@ type Directive struct {
 	Nth  int    `json:"n"`
 	Act  int    `json:"a"`
 	To   int    `json:"to,omitempty"` // ActSwitch: task; ActFault: fault kind; ActGrow: depth
+	P    int    `json:"p,omitempty"`  // phase: index of the scheduler run inside one plan
 }
 
 // Config of one run.
 type Config struct {
 	Seed          uint64
+	Phase         int                   // index of this scheduler run inside one plan (part of every directive)
 	Permille      int                   // probability of a task switch at a yield (‰)
 	GCPermille    int                   // probability of a GC event at a yield (‰)
 	GrowPermille  int                   // probability of a stack-growth event at a yield (‰)
@@ -247,6 +249,7 @@ func logEvent(task, site, act, to int, key uint64, nth int) {
 
 //go:norace
 func record(d Directive) {
+	d.P = cfg.Phase
 	if nFired < maxFired {
 		fired[nFired] = d
 		nFired++
@@ -335,7 +338,7 @@ func abort(why string) {
 func lookupDirective(task, site int, key uint64, nth int, wantFault bool) (Directive, bool) {
 	for i := range cfg.Directives {
 		d := &cfg.Directives[i]
-		if d.Task == task && d.Site == site && d.Key == key && d.Nth == nth && (d.Act == ActFault) == wantFault {
+		if d.P == cfg.Phase && d.Task == task && d.Site == site && d.Key == key && d.Nth == nth && (d.Act == ActFault) == wantFault {
 			return *d, true
 		}
 	}
@@ -365,7 +368,7 @@ func Yield(site int, key uintptr) {
 	if cfg.UseDirectives {
 		for i := range cfg.Directives {
 			d := &cfg.Directives[i]
-			if d.Task == t && d.Site == site && d.Key == k && d.Nth == n {
+			if d.P == cfg.Phase && d.Task == t && d.Site == site && d.Key == k && d.Nth == n {
 				switch d.Act {
 				case ActGC:
 					doGC = true
@@ -377,7 +380,7 @@ func Yield(site int, key uintptr) {
 			}
 		}
 	} else {
-		h := mix(mix(mix(mix(cfg.Seed, uint64(t)), uint64(site)), k), uint64(n))
+		h := mix(mix(mix(mix(mix(cfg.Seed, uint64(cfg.Phase)), uint64(t)), uint64(site)), k), uint64(n))
 		if cfg.GCPermille > 0 && gcCount < cfg.MaxGC && int(h%1000) < cfg.GCPermille {
 			doGC = true
 		}
